@@ -170,3 +170,460 @@ def _scope_contracts():
 
 
 CONTRACTS.extend(_scope_contracts())
+
+# defaultFlavor: the production value tells which flavor keywords the Flavor(...) clause lists: every flavor of the
+# flavorListWithComma symbol (lower-cased by p_flavor) is a key with value True, and no other lower-case flavor word
+# is a key.  Engine limit for a flavor list of symbolic content ("store with symbolic key into literal-key dict" at
+# `flavors[i] = True`): the rule is checked for CONCRETE flavor lists instead (the six words p_flavor can produce:
+# every single one, all six, a repetition, two in reverse order), the list modelled by a tuple (it is only iterated).
+FLAVOR_WORDS = ('enableoverride', 'disableoverride', 'restricted', 'tosubclass', 'toinstance', 'translatable')
+FLAVOR_LISTS = [(w,) for w in FLAVOR_WORDS] + [FLAVOR_WORDS, ('tosubclass', 'tosubclass'), ('translatable', 'disableoverride')]
+
+
+def _default_flavor_contracts():
+    head, alts = _alternatives('p_defaultFlavor')
+    out = []
+    for syms in alts:
+        pos = _pos(syms)
+        k = pos['flavorListWithComma']
+        for fl in FLAVOR_LISTS:
+            items = [NoneT] + [_sort(s_) for s_ in syms]
+            items[k] = Lit(fl)
+            out.append(Contract(
+                M + 'p_defaultFlavor', label=' '.join(syms) + ' with flavors ' + ' '.join(fl),
+                params={'p': Obj('YaccProduction', __items__=TupleOf(*items))},
+                loops={1: LoopSpec(unroll=True)},
+                ensures=[(f'{w}-is-entered-iff-listed', (f"{w!r} in p[0] and p[0][{w!r}] is True" if w in fl else f"{w!r} not in p[0]"))
+                         for w in FLAVOR_WORDS],
+                raises={}, notes=f'rule: {head} : {" ".join(syms)}'))
+    return out
+
+
+CONTRACTS.extend(_default_flavor_contracts())
+
+
+# qualifierDeclaration: name from qualifierName; type, is_array, array_size and default value from the qualifierType
+# symbol (the 4-tuple of p_qualifierType_1/_2 above); scopes from the scope symbol; flavors from the defaultFlavor
+# symbol.  Flavor defaults (class documentation of CIMQualifierDeclaration: "The pywbem MOF compiler supplies all of the
+# flavor values so that those which were not specified in the MOF are set to the DMTF defined default values":
+# EnableOverride -> overridable True, ToSubclass -> tosubclass True, not Translatable -> translatable False,
+# not ToInstance -> toinstance False).
+SYM['qualifierType'] = TupleOf(Str, Bool, Opt(Int), VALUE)
+SYM['scope'] = Ref('OrderedDict')
+SYM['defaultFlavor'] = MapOf('str', 'bool')
+FLAVOR_CONFLICT = ("('disableoverride' in {F} and 'enableoverride' in {F}) or ('restricted' in {F} and 'tosubclass' in {F})")
+
+
+def _qualifier_declaration_contracts():
+    head, alts = _alternatives('p_qualifierDeclaration')
+    out = []
+    for syms in alts:
+        pos = _pos(syms)
+        T = f"caller_p[{pos['qualifierType']}]"
+        req = [('name-is-the-qualifierName-symbol', f"name == caller_p[{pos['qualifierName']}]"),
+               ('type-is-that-of-the-qualifierType-symbol', f"type == {T}[0]"),
+               ('array-ness-and-size-are-those-of-the-qualifierType-symbol',
+                f"is_array == {T}[1] and (array_size is {T}[2] or array_size == {T}[2])"),
+               ('default-value-is-that-of-the-qualifierType-symbol', f"value is {T}[3]"),
+               ('scopes-are-the-scope-symbol', f"scopes is caller_p[{pos['scope']}]")]
+        raises = {}
+        if 'defaultFlavor' in pos:
+            F = f"caller_p[{pos['defaultFlavor']}]"
+            has = lambda w: f"{w!r} in {F}"
+            req += [('DisableOverride-means-not-overridable', f"implies({has('disableoverride')}, overridable is False)"),
+                    ('EnableOverride-means-overridable', f"implies({has('enableoverride')}, overridable is True)"),
+                    ('Restricted-means-not-to-subclasses', f"implies({has('restricted')}, tosubclass is False)"),
+                    ('ToSubclass-means-to-subclasses', f"implies({has('tosubclass')}, tosubclass is True)"),
+                    ('Translatable-means-translatable', f"implies({has('translatable')}, translatable is True)"),
+                    ('ToInstance-means-to-instances', f"implies({has('toinstance')}, toinstance is True)"),
+                    ('default-is-EnableOverride', f"implies(not {has('disableoverride')}, overridable is True)"),
+                    ('default-is-ToSubclass', f"implies(not {has('restricted')}, tosubclass is True)"),
+                    ('default-is-not-Translatable', f"implies(not {has('translatable')}, translatable is False)"),
+                    ('default-is-not-ToInstance', f"implies(not {has('toinstance')}, toinstance is False)")]
+            raises = {'MOFParseError': Raises(when=FLAVOR_CONFLICT.format(F=f"p[{pos['defaultFlavor']}]"))}
+        else:
+            req += [('default-is-EnableOverride', 'overridable is True'),
+                    ('default-is-ToSubclass', 'tosubclass is True'),
+                    ('default-is-not-Translatable', 'translatable is False'),
+                    ('default-is-not-ToInstance', 'toinstance is False')]
+        init_c = Contract(O + 'CIMQualifierDeclaration.__init__', trusted=True, raises=ERR, requires=req)
+        out.append(Contract(
+            M + 'p_qualifierDeclaration', label=' '.join(syms),
+            params={'p': _prod(syms)},
+            callees={'CIMQualifierDeclaration.__init__': init_c},
+            opaque=['CIMQualifierDeclaration'],
+            ensures=[('production-value-is-the-qualifier-declaration', 'isinstance(p[0], CIMQualifierDeclaration)')],
+            raises=dict(ERR, **raises),
+            notes=f'rule: {head} : {" ".join(syms)}'))
+    return out
+
+
+CONTRACTS.extend(_qualifier_declaration_contracts())
+
+
+# ---- 4. qualifier (a qualifier VALUE on an element).  The declaration is looked up in the compiler's cache
+# p.parser.qualcache[namespace]; the contract is restricted (requires) to the case that the cache has the namespace -
+# the cache entry is a NocaseDict known by reference (engine model: reading it does not raise), so the repository
+# look-up and the compilation of qualifiers.mof on a cache miss are outside this contract.
+#   name: the qualifierName symbol; type: that of the declaration;
+#   value: the qualifierParameter symbol typed by cimvalue() with the declared type; without a parameter True for a
+#          boolean qualifier, otherwise the default value of the declaration (comments in the action);
+#   flavors: those of the declaration, changed by the flavors of the flavorList symbol (docstring of _build_flavors);
+#   propagated is not set (comment in the action).
+# _build_flavors is cut at its contract (proved first, for an arbitrary flavor list on top of an arbitrary declaration).
+CLASS_SPECS['NocaseDict'] = {'__value__': ('ref', 'CIMQualifierDeclaration')}
+CLASS_SPECS['CIMQualifierDeclaration'] = {'name': Str, 'type': Str, 'value': Opt(Ref('value')), 'overridable': Opt(Bool),
+                                          'tosubclass': Opt(Bool), 'toinstance': Opt(Bool), 'translatable': Opt(Bool)}
+SYM['qualifierParameter'] = Opt(Ref('value'))
+QPARSER = Obj('LRParser', target_namespace=Str, qualcache=MapOf('str', ('ref', 'NocaseDict')))
+DECL = 'caller_p.parser.qualcache[caller_p.parser.target_namespace][caller_p[1]]'
+FLAVOR_ARGS = (('overridable', 'enableoverride', 'disableoverride'), ('tosubclass', 'tosubclass', 'restricted'),
+               ('translatable', 'translatable', None), ('toinstance', 'toinstance', None))
+
+
+def _same(a, b):
+    return f'({a} is {b} or {a} == {b})'
+
+
+def _flavor_rules(value_of, L, decl_of, suffix=''):
+    """[(name, expression)]: what the flavor words in the list L mean for the four flavor arguments; a flavor the list
+    does not mention is taken from the declaration."""
+    out = []
+    for arg, on, off in FLAVOR_ARGS:
+        v, d = value_of(arg), decl_of(arg)
+        out.append((f'{on}-in-the-flavor-list-sets-{arg}{suffix}', f'implies({on!r} in {L}, {v} is True)'))
+        if off:
+            out.append((f'{off}-in-the-flavor-list-clears-{arg}{suffix}', f'implies({off!r} in {L}, {v} is False)'))
+        none = f'{on!r} not in {L}' + (f' and {off!r} not in {L}' if off else '')
+        out.append((f'{arg}-is-that-of-the-declaration-unless-the-flavor-list-says-otherwise{suffix}',
+                    f'implies({none}, {_same(v, d)})'))
+    return out
+
+
+FLAVOR_REC = Rec(overridable=Opt(Bool), translatable=Opt(Bool), tosubclass=Opt(Bool), toinstance=Opt(Bool))
+BUILD_ENS = _flavor_rules(lambda a: f'result[{a!r}]', 'flist', lambda a: f'qualdecl.{a}')
+CONTRACTS.append(Contract(
+    M + '_build_flavors', label='on top of a declaration',
+    params={'p': Ref('YaccProduction'), 'flist': ListOf('str'), 'qualdecl': Ref('CIMQualifierDeclaration'), 'qualname': Str},
+    ensures=[('all-four-flavors-are-defined', 'len(result) == 4')] + BUILD_ENS,
+    raises={'MOFParseError': Raises(when=FLAVOR_CONFLICT.format(F='flist'))}))
+
+
+def _qualifier_contracts():
+    head, alts = _alternatives('p_qualifier')
+    out = []
+    for syms in alts:
+        pos = _pos(syms)
+        req = [('name-is-the-qualifierName-symbol', f"name == caller_p[{pos['qualifierName']}]"),
+               ('type-is-the-declared-type', f'type == {DECL}.type'),
+               ('parsed-MOF-is-not-propagated', 'propagated is None')]
+        callees = {}
+        if 'qualifierParameter' in pos:
+            P = f"caller_p[{pos['qualifierParameter']}]"
+            req += [('a-given-value-is-not-replaced-by-NULL', f'implies({P} is not None, value is not None)'),
+                    ('an-explicit-NULL-stays-NULL', f'implies({P} is None, value is None)')]
+            callees['cimvalue'] = Contract(
+                O + 'cimvalue', returns=Opt(Ref('value')), trusted=True, raises=ERR,
+                requires=[('the-qualifierParameter-symbol-is-typed-with-the-declared-type',
+                           f'value is {P} and type == {DECL}.type')],
+                ensures=[('NULL-iff-NULL', '(result is None) == (value is None)')],
+                notes='cimvalue(None, t) is None, any other value gives an object')
+        else:
+            req += [('a-boolean-qualifier-without-parameter-is-True', f"implies({DECL}.type == 'boolean', value is True)"),
+                    ('another-qualifier-without-parameter-has-the-declared-default',
+                     f"implies({DECL}.type != 'boolean', value is {DECL}.value)")]
+        raises = dict(ERR)
+        if 'flavorList' in pos:
+            L = f"caller_p[{pos['flavorList']}]"
+            req += _flavor_rules(lambda a: a, L, lambda a: f'{DECL}.{a}')
+            raises['MOFParseError'] = Raises(when=FLAVOR_CONFLICT.format(F=f"p[{pos['flavorList']}]"))
+            build_req = ('the-flavorList-symbol-on-top-of-the-declaration', f'flist is {L} and qualdecl is {DECL}')
+        else:
+            req += [(f'{a}-is-that-of-the-declaration', _same(a, f'{DECL}.{a}')) for a, _on, _off in FLAVOR_ARGS]
+            build_req = ('no-flavorList-symbol-means-the-flavors-of-the-declaration', f'len(flist) == 0 and qualdecl is {DECL}')
+        callees['_build_flavors'] = Contract(
+            M + '_build_flavors', returns=FLAVOR_REC, requires=[build_req], ensures=BUILD_ENS,
+            raises={'MOFParseError': Raises(when=FLAVOR_CONFLICT.format(F='flist'))},
+            notes='proved above (_build_flavors[on top of a declaration])')
+        callees['CIMQualifier.__init__'] = Contract(O + 'CIMQualifier.__init__', trusted=True, raises=ERR, requires=req)
+        out.append(Contract(
+            M + 'p_qualifier', label=' '.join(syms),
+            params={'p': _prod(syms, parser=QPARSER)},
+            requires=['len(p.parser.target_namespace) > 0', 'p.parser.target_namespace in p.parser.qualcache'],
+            callees=callees, opaque=['CIMQualifier'],
+            ensures=[('production-value-is-the-qualifier', 'isinstance(p[0], CIMQualifier)')],
+            raises=raises, notes=f'rule: {head} : {" ".join(syms)}'))
+    return out
+
+
+CONTRACTS.extend(_qualifier_contracts())
+
+
+# ---- 5. helper actions: the production value is exactly what the rule says
+# A-LEX (read from the lexer table `reserved` of the real source): a keyword token KW is produced by t_IDENTIFIER for a
+# text whose lower-cased form is the reserved word of KW; p[i] of a keyword token is that text (any letter case).
+def _reserved():
+    d = _mod.defs.get('reserved')
+    if isinstance(d, tuple) and d[0] == 'assign':
+        return {v: k for k, v in _ast.literal_eval(d[1]).items()}      # token name -> reserved word
+    return {}
+
+
+RESERVED = _reserved()
+# DSP0004 names of the CIM data types (the `type` strings of pywbem) for the data type tokens
+CIM_TYPE_OF_TOKEN = {'DT_UINT8': 'uint8', 'DT_SINT8': 'sint8', 'DT_UINT16': 'uint16', 'DT_SINT16': 'sint16',
+                     'DT_UINT32': 'uint32', 'DT_SINT32': 'sint32', 'DT_UINT64': 'uint64', 'DT_SINT64': 'sint64',
+                     'DT_REAL32': 'real32', 'DT_REAL64': 'real64', 'DT_CHAR16': 'char16', 'DT_STR': 'string',
+                     'DT_BOOL': 'boolean', 'DT_DATETIME': 'datetime'}
+
+
+def _keyword_contracts(fname, expected, case):
+    """One contract per alternative `head : KEYWORD`: the production value is `expected(KEYWORD)`; the token text is
+    any spelling of the reserved word (lexer fact, stated for the case mapping the engine can relate to the result:
+    lower() and upper() are unrelated uninterpreted functions in the engine)."""
+    head, alts = _alternatives(fname)
+    out = []
+    for syms in alts:
+        if len(syms) != 1 or syms[0] not in RESERVED:
+            continue
+        word = RESERVED[syms[0]]
+        want = expected(syms[0])
+        lex = f"p[1].lower() == {word!r}" if case == 'lower' else f"p[1].upper() == {word.upper()!r}"
+        out.append(Contract(M + fname, label=syms[0], params={'p': _prod(syms)}, requires=[lex],
+                            ensures=[(f'production-value-is-{want!r}', f'p[0] is {want!r}' if isinstance(want, bool) else f'p[0] == {want!r}')],
+                            raises={}, notes=f'rule: {head} : {syms[0]}'))
+    return out
+
+
+CONTRACTS.extend(_keyword_contracts('p_dataType', lambda t: CIM_TYPE_OF_TOKEN[t], 'lower'))
+CONTRACTS.extend(_keyword_contracts('p_flavor', lambda t: {w.upper(): w for w in FLAVOR_WORDS}[t], 'lower'))
+CONTRACTS.extend(_keyword_contracts('p_scopeElement', lambda t: {k: k for k in SCOPE_KEYWORDS}[t], 'upper'))
+CONTRACTS.extend(_keyword_contracts('p_booleanValue', lambda t: {'TRUE': True, 'FALSE': False}[t], 'lower'))
+CONTRACTS.append(Contract(M + 'p_nullValue', label='NULL', params={'p': _prod(['NULL'])},
+                          ensures=[('production-value-is-NULL', 'p[0] is None')], raises={}))
+
+
+# identity / selection rules: the production value IS the value of the one symbol that carries it.  Alternatives of the
+# same shape share one contract (label: the alternatives).  Symbol sorts: names are strings, constant values and
+# initializers are NULL or a value object, declarations are objects, `empty` is None (p_empty sets nothing).
+NAME_SYMS = ('identifier', 'IDENTIFIER', 'className', 'propertyName', 'referenceName', 'methodName', 'parameterName',
+             'objectHandle', 'qualifierName', 'aliasIdentifier', 'alias', 'superClass', 'dataType', 'objectRef')
+VALUE_SYMS = ('constantValue', 'initializer', 'floatValue', 'charValue', 'stringValueList', 'booleanValue',
+              'nullValue', 'referenceInitializer', 'binaryValue', 'octalValue', 'decimalValue', 'hexValue')
+OBJ_SYMS = {'methodDeclaration': 'CIMMethod', 'referenceDeclaration': 'CIMProperty', 'propertyDeclaration': 'CIMProperty',
+            'classFeature': 'object', 'parameter': 'CIMParameter', 'qualifier': 'CIMQualifier'}
+for _n in NAME_SYMS:
+    SYM.setdefault(_n, Str)
+for _n in VALUE_SYMS:
+    SYM.setdefault(_n, Opt(Ref('value')))
+for _n, _c in OBJ_SYMS.items():
+    SYM.setdefault(_n, Ref(_c))
+for _i in range(1, 9):
+    SYM.setdefault(f'propertyDeclaration_{_i}', Ref('CIMProperty'))
+for _i in range(1, 5):
+    SYM.setdefault(f'parameter_{_i}', Ref('CIMParameter'))
+SYM.setdefault('qualifierType_1', SYM['qualifierType'])
+SYM.setdefault('qualifierType_2', SYM['qualifierType'])
+SYM.setdefault('integerValue', Int)
+SYM.setdefault('arrayInitializer', ListOf(('ref', 'value')))
+SYM.setdefault('constantValueList', ListOf(('ref', 'value')))
+SYM.setdefault('classFeatureList', ListOf('ref'))
+SYM.setdefault('qualifierListEmpty', QUALS)
+SYM.setdefault('valueInitializer', TupleOf(Ref('list'), Str, Opt(Ref('value'))))
+SYM.setdefault('valueInitializerList', ListOf(('tuple', ('ref', 'list'), 'str', ('opt', ('ref', 'value')))))
+SYM.setdefault('empty', NoneT)
+
+
+def _sort_or_none(sym):
+    try:
+        return _sort(sym)
+    except KeyError:
+        return None
+
+
+def _selection_contracts(fname, which):
+    """which(syms) -> index of the symbol whose value is the production value."""
+    head, alts = _alternatives(fname)
+    groups = {}
+    for syms in alts:
+        sorts = [_sort_or_none(s_) for s_ in syms]
+        if any(x is None for x in sorts):
+            continue
+        groups.setdefault((tuple(repr(x) for x in sorts), which(syms)), []).append(syms)
+    out = []
+    for (_sig, k), group in groups.items():
+        # (a tuple value has no identity in the engine: equality of all components instead)
+        op = '==' if _sort(group[0][k - 1]).tag == 'Tuple' else 'is'
+        out.append(Contract(M + fname, label=' | '.join(' '.join(g) for g in group), params={'p': _prod(group[0])},
+                            ensures=[(f'production-value-is-the-value-of-symbol-{k}', f'p[0] {op} p[{k}]')], raises={},
+                            notes=f'rule: {head} : ' + ' | '.join(' '.join(g) for g in group)))
+    return out
+
+
+FIRST = lambda syms: 1
+for _f in ('p_propertyDeclaration', 'p_parameter', 'p_qualifierType', 'p_classFeature', 'p_initializer', 'p_constantValue',
+           'p_integerValue', 'p_className', 'p_propertyName', 'p_referenceName', 'p_methodName', 'p_parameterName',
+           'p_objectHandle', 'p_qualifierName', 'p_identifier', 'p_objectRef'):
+    CONTRACTS.extend(_selection_contracts(_f, FIRST))
+# the symbol named in the rule next to the punctuation / keyword
+CONTRACTS.extend(_selection_contracts('p_alias', lambda syms: syms.index('aliasIdentifier') + 1))
+CONTRACTS.extend(_selection_contracts('p_superClass', lambda syms: syms.index('className') + 1))
+CONTRACTS.extend(_selection_contracts('p_defaultValue', lambda syms: syms.index('initializer') + 1))
+CONTRACTS.extend(_selection_contracts(
+    'p_qualifierParameter', lambda syms: (syms.index('constantValue') if 'constantValue' in syms else syms.index('arrayInitializer')) + 1))
+
+
+def _one_alternative(fname, syms_wanted):
+    head, alts = _alternatives(fname)
+    return head, [a for a in alts if a == syms_wanted]
+
+
+def _explicit(fname, syms, ensures, **kw):
+    """A contract for the alternative `syms` of the rule of `fname`, if the rule (still) has that alternative."""
+    head, alts = _one_alternative(fname, syms)
+    return [Contract(M + fname, label=' '.join(a), params={'p': _prod(a)}, ensures=ensures, raises={},
+                     notes=f'rule: {head} : {" ".join(a)}', **kw) for a in alts]
+
+
+# array: '[' ']' is an array of unspecified size (None), '[' n ']' has the size n
+CONTRACTS.extend(_explicit('p_array', ["'['", "']'"], [('no-size', 'p[0] is None')]))
+CONTRACTS.extend(_explicit('p_array', ["'['", 'integerValue', "']'"], [('size-is-the-integerValue-symbol', 'p[0] == p[2]')]))
+# arrayInitializer: '{' '}' is the empty array (not NULL), otherwise the constantValueList symbol
+CONTRACTS.extend(_explicit('p_arrayInitializer', ["'{'", "'}'"],
+                           [('an-empty-array-not-NULL', 'isinstance(p[0], list) and len(p[0]) == 0')]))
+CONTRACTS.extend(_explicit('p_arrayInitializer', ["'{'", 'constantValueList', "'}'"],
+                           [('the-constantValueList-symbol', 'p[0] is p[2]')]))
+# aliasIdentifier: the alias name includes the dollar sign (p_classDeclaration and p_referenceInitializer test it)
+CONTRACTS.extend(_explicit('p_aliasIdentifier', ["'$'", 'identifier'], [('dollar-and-the-identifier', "p[0] == '$' + p[2]")]))
+# valueInitializer: (qualifiers, property name, value)
+CONTRACTS.extend(_explicit('p_valueInitializer', ['identifier', 'defaultValue', "';'"],
+                           [('name-and-value-no-qualifiers', 'len(p[0]) == 3 and len(p[0][0]) == 0 and p[0][1] == p[1] and p[0][2] is p[2]')]))
+CONTRACTS.extend(_explicit('p_valueInitializer', ['qualifierList', 'identifier', 'defaultValue', "';'"],
+                           [('qualifiers-name-and-value', 'len(p[0]) == 3 and p[0][0] is p[1] and p[0][1] == p[2] and p[0][2] is p[3]')]))
+
+
+# list rules:  L : X  gives [X];  L : L [sep] X  gives the items of L followed by X
+def _list_contracts(fname, item, eq='is', sorts=None):
+    """sorts: symbol -> Sort used for this rule only (the rule does not look into the items)."""
+    head, alts = _alternatives(fname)
+    out = []
+    saved = dict(SYM)
+    SYM.update(sorts or {})
+    try:
+        return _list_contracts_1(head, alts, fname, item, eq)
+    finally:
+        SYM.clear()
+        SYM.update(saved)
+
+
+def _list_contracts_1(head, alts, fname, item, eq):
+    out = []
+    same = (lambda a, b: f'{a} == {b}') if eq == '==' else (lambda a, b: f'{a} is {b}')
+    for syms in alts:
+        if any(_sort_or_none(s_) is None for s_ in syms):
+            continue
+        pos = _pos(syms)
+        if syms == ['empty']:
+            ens = [('an-empty-list', 'isinstance(p[0], list) and len(p[0]) == 0')]
+        elif syms == [item]:
+            ens = [('a-list-of-that-one-item', f"isinstance(p[0], list) and len(p[0]) == 1 and {same('p[0][0]', 'p[1]')}")]
+        elif syms[0] == head and syms[-1] == item:
+            k = len(syms)
+            ens = [('one-more-item', 'len(p[0]) == len(p[1]) + 1'),
+                   ('the-new-item-is-last', same('p[0][len(p[1])]', f'p[{k}]')),
+                   ('earlier-items-keep-their-order', f"forall(lambda j: {same('p[0][j]', 'p[1][j]')}, 0, len(p[1]))")]
+        else:
+            continue
+        out.append(Contract(M + fname, label=' '.join(syms), params={'p': _prod(syms)}, ensures=ens, raises={},
+                            notes=f'rule: {head} : {" ".join(syms)}'))
+    return out
+
+
+SYM.setdefault('flavor', Str)
+SYM.setdefault('scopeElement', Str)
+CONTRACTS.extend(_list_contracts('p_parameterList', 'parameter'))
+CONTRACTS.extend(_list_contracts('p_classFeatureList', 'classFeature'))
+CONTRACTS.extend(_list_contracts('p_qualifierListEmpty', 'qualifier'))
+CONTRACTS.extend(_list_contracts('p_flavorList', 'flavor', '=='))
+CONTRACTS.extend(_list_contracts('p_flavorListWithComma', 'flavor', '=='))
+CONTRACTS.extend(_list_contracts('p_scopeElementList', 'scopeElement', '=='))
+# Engine limits met with the exact item sorts: a NULL item of a constantValueList ("value VNone has no flat kind" at
+# `p[0] = [p[1]]`) and a valueInitializer tuple with a NULL-or-value component inside the quantified postcondition ("a case
+# split is needed where none is allowed (quantifier body / speculative evaluation)").  The list rules do not look into
+# their items, so the items are modelled as object references here (for constantValueList: a non-NULL constant).
+CONTRACTS.extend(_list_contracts('p_constantValueList', 'constantValue', sorts={'constantValue': Ref('value')}))
+CONTRACTS.extend(_list_contracts('p_valueInitializerList', 'valueInitializer',
+                                 sorts={'valueInitializer': Ref('object'), 'valueInitializerList': ListOf('ref')}))
+# qualifierList: '[' qualifier qualifierListEmpty ']' is the first qualifier followed by the others
+CONTRACTS.extend(_explicit('p_qualifierList', ["'['", 'qualifier', 'qualifierListEmpty', "']'"],
+                           [('one-more-item', 'len(p[0]) == len(p[3]) + 1'),
+                            ('the-first-qualifier-is-first', 'p[0][0] is p[2]'),
+                            ('the-others-follow-in-order', 'forall(lambda j: p[0][j] is p[3][j - 1], 1, len(p[0]))')]))
+
+
+# ---- 6. classDeclaration: classname from the className symbol, superclass from the superClass symbol (None without
+# one), qualifiers from the qualifierList symbol (none without one), every class feature entered under its name among
+# the methods (CIMMethod) or the properties (anything else) with the class as its origin, and the class registered
+# under the alias of the alias symbol.
+# Lexical facts used (requires): a className / superClass is an identifier (not empty, does not start with '$', is not
+# the text '{' - identifier_re), an alias is '$' followed by an identifier (p_aliasIdentifier above).
+# Engine limit: the class of a list item is static in the engine; a list of items that are properties OR methods needs a
+# case split inside the quantified invariant ("a case split is needed where none is allowed (quantifier body /
+# speculative evaluation)").  Each alternative is therefore checked twice: all features are properties/references, all
+# features are methods (the loop treats every item on its own).
+FEATURE_CLASSES = {'property and reference features': 'CIMProperty', 'method features': 'CIMMethod'}
+CLASS_SPECS.setdefault('CIMProperty', {}).update({'name': Str, 'class_origin': Opt(Str)})
+CLASS_SPECS.setdefault('CIMMethod', {}).update({'name': Str, 'class_origin': Opt(Str)})
+CPARSER = Obj('LRParser', aliases=MapOf('str', 'ref'))
+
+
+def _class_declaration_contracts(only=None):
+    head, alts = _alternatives('p_classDeclaration')
+    out = []
+    saved = dict(SYM)
+    try:
+        for syms, (what, fcls) in [(a, fc) for a in alts for fc in FEATURE_CLASSES.items()]:
+            SYM.update({'classFeatureList': ListOf(('ref', fcls)), 'className': Str, 'superClass': Str, 'alias': Str})
+            pos = _pos(syms)
+            F = f"caller_p[{pos['classFeatureList']}]"
+            lex = [f"len(p[{pos['className']}]) > 0 and p[{pos['className']}][0] != '$'"]
+            req = [('classname-is-the-className-symbol', f"classname == caller_p[{pos['className']}]")]
+            if 'superClass' in pos:
+                lex.append(f"len(p[{pos['superClass']}]) > 0 and p[{pos['superClass']}][0] != '$' and p[{pos['superClass']}] != '{{'")
+                req.append(('superclass-is-the-superClass-symbol', f"superclass == caller_p[{pos['superClass']}]"))
+            else:
+                req.append(('no-superClass-symbol-means-no-superclass', 'superclass is None'))
+            req.append(_quals_req(pos))
+            into = 'methods' if fcls == 'CIMMethod' else 'properties'
+            local = 'methods' if fcls == 'CIMMethod' else 'props'
+            C = f"caller_p[{pos['className']}]"
+            req.append((f'every-{fcls}-feature-is-entered-under-its-name-among-the-{into}',
+                        f"forall(lambda j: {F}[j].name in {into}, 0, len({F}))"))
+            req.append(('every-class-feature-has-the-class-as-its-origin',
+                        f"forall(lambda j: {F}[j].class_origin == {C}, 0, len({F}))"))
+            ens = [('production-value-is-the-class', 'isinstance(p[0], CIMClass)')]
+            if 'alias' in pos:
+                lex.append(f"len(p[{pos['alias']}]) > 1 and p[{pos['alias']}][0] == '$'")
+                ens.append(('the-class-is-registered-under-the-alias',
+                            f"p[{pos['alias']}] in p.parser.aliases and p.parser.aliases[p[{pos['alias']}]] is p[0]"))
+            init_c = Contract(O + 'CIMClass.__init__', trusted=True, raises=ERR, requires=req)
+            Fl = f"p[{pos['classFeatureList']}]"
+            out.append(Contract(
+                M + 'p_classDeclaration', label=' '.join(syms) + ' with ' + what,
+                params={'p': _prod(syms, parser=CPARSER)}, requires=lex,
+                callees={'CIMClass.__init__': init_c}, opaque=['CIMClass'],
+                kinds={'methods': ('str', ('ref', 'CIMMethod'), True), 'props': ('str', 'ref', True)},
+                loops={1: LoopSpec(target='item', types={'item': Ref(fcls)},
+                                   modifies=['methods', 'props', '$fields'],
+                                   invariant=[('features-so-far-are-entered-under-their-names',
+                                               f"forall(lambda j: {Fl}[j].name in {local}, 0, _i)"),
+                                              ('features-so-far-have-the-class-as-their-origin',
+                                               f"forall(lambda j: {Fl}[j].class_origin == p[{pos['className']}], 0, _i)")])},
+                ensures=ens, raises=ERR, notes=f'rule: {head} : {" ".join(syms)}'))
+    finally:
+        SYM.clear()
+        SYM.update(saved)
+    return out
+
+
+CONTRACTS.extend(_class_declaration_contracts())
